@@ -19,9 +19,25 @@ Rules (conservative = more aliasing, more writes):
 * ``x.copy(deep=False)``, ``dict(x)``, ``dict(x.items())``, ``list(x)`` → a new local container whose fields view ``x``;
   assigning an attribute of a local container rebinds that field, assigning an attribute of anything else is
   a ``write``; in-place arithmetic on a container with a ``data`` field writes that field only;
-* ``if`` forks the path (every path is a separate program, all are checked); ``for`` bodies are unrolled
-  twice; a call to another function of the package uses that function's own summary (the set of parameters
-  it may write, re-checked in Lean) and its result may alias any argument.
+* control flow is JOINED, not forked: both branches of an ``if`` (all handlers of a ``try``, all cases of a ``match``)
+  are translated one after the other from the same bindings; a name bound differently on the branches becomes a
+  ``view`` of both values.  Every IR variable is assigned once, so the may-alias / may-write analysis of the joined
+  program is the union over the branches (one program per function);
+* loops (``for`` / ``while`` / comprehensions) are translated by repeating the body until the abstract state (may-alias
+  sets of all names and the written set, under the all-aliasing configuration) is stable: the repeated body is the
+  loop invariant; a loop that does not stabilise within 8 rounds makes the function untranslated;
+* lists, tuples, dicts and constructor calls create local *records* that store references to their elements (keyword
+  arguments / constant string keys as named fields); list / dict ARGUMENTS are buffers like any other argument, so
+  ``choppers.sort()``, ``.append``, ``del x[k]`` on an argument is a ``write`` to it;
+* attribute reads (fields and properties) are views of the object;
+* calls: functions of the package use the callee's own summary — parameters it may write, parameters its result
+  (and each named field of a returned record) may alias — re-checked in Lean for the callee; a method called on an
+  object that is not ``self`` dispatches to EVERY class of the package that defines a method of that name (union of the
+  summaries); calling an object held in a whitelisted field (``_left``, ``_right``, ``peak``, ``background``)
+  dispatches to every ``__call__``; ``functools.partial`` objects and nested ``def``s are closures over their bound
+  arguments; callable parameters are resolved through the explicit table ``CALLABLE_PARAMS``; recursion is handled by
+  growing the assumed summary to a fixpoint; external functions must be in the explicit whitelists (``PURE_BUILTINS``,
+  ``OPAQUE_PURE``, ``PURE_METHODS`` …) — anything else makes the function untranslated, with the reason recorded.
 """
 from __future__ import annotations
 
@@ -92,9 +108,69 @@ TARGETS = [
     ('absorption/cylinder.py', 'Cylinder.quadrature', True),
     ('absorption/base.py', '_integrate_transmission_fraction', False),
     ('io/sqw/_build.py', '_split_pix_rows', False),
+    # --- second round: more entry points inside the proved model
+    ('peaks/model.py', 'Model.__call__', True),
+    ('peaks/model.py', 'Model.guess', True),
+    ('peaks/model.py', 'GaussianModel._guess', True),
+    ('peaks/model.py', 'LorentzianModel._guess', True),
+    ('peaks/model.py', 'PseudoVoigtModel._guess', True),
+    ('peaks/model.py', 'PolynomialModel._guess', True),
+    ('peaks/model.py', 'CompositeModel._guess', True),
+    ('peaks/model.py', 'GaussianModel.fwhm', True),
+    ('peaks/model.py', 'LorentzianModel.fwhm', True),
+    ('peaks/model.py', 'PseudoVoigtModel.fwhm', True),
+    ('peaks/_fit_peaks.py', 'FitResult.eval_peak', True),
+    ('peaks/_fit_peaks.py', 'FitResult.eval_model', True),
+    ('peaks/_fit_peaks.py', 'FitResult.for_failure', True),
+    ('peaks/_fit_peaks.py', 'fit_peaks', True),
+    ('peaks/_fit_peaks.py', '_fit_peak', False),
+    ('peaks/_fit_peaks.py', '_fit_peak_single_model', False),
+    ('peaks/_fit_peaks.py', '_fit_background', False),
+    ('peaks/_fit_peaks.py', '_perform_fit', False),
+    ('peaks/_fit_peaks.py', '_goodness_of_fit_statistics', False),
+    ('peaks/_fit_peaks.py', '_assess_fit', False),
+    ('peaks/_fit_peaks.py', '_peak_is_near_edge', False),
+    ('peaks/_fit_peaks.py', '_peak_is_too_wide', False),
+    ('peaks/_fit_peaks.py', '_peak_is_too_narrow', False),
+    ('peaks/_fit_peaks.py', '_guess_background', False),
+    ('peaks/_fit_peaks.py', '_guess_peak', False),
+    ('peaks/_fit_peaks.py', '_parse_model_spec', False),
+    ('peaks/_fit_peaks.py', '_assert_data_is_supported', False),
+    ('absorption/cylinder.py', 'Cylinder.beam_intersection', True),
+    ('absorption/cylinder.py', 'Cylinder._select_quadrature_points', False),
+    ('absorption/cylinder.py', '_line_infinite_cylinder_intersection', False),
+    ('absorption/cylinder.py', '_line_slab_intersection', False),
+    ('absorption/cylinder.py', '_positive_interval_intersection', False),
+    ('absorption/cylinder.py', '_cylinder_quadrature_from_product', False),
+    ('absorption/base.py', 'compute_transmission_map', True),
+    ('absorption/base.py', '_single_scatter_distance_through_sample', False),
+    ('absorption/base.py', '_transmission_fraction', False),
+    ('absorption/material.py', 'Material.attenuation_coefficient', True),
+    ('chopper/disk_chopper.py', 'DiskChopper.time_offset_open', True),
+    ('chopper/disk_chopper.py', 'DiskChopper.time_offset_close', True),
+    ('chopper/disk_chopper.py', 'DiskChopper.time_offset_angle_at_beam', True),
+    ('chopper/disk_chopper.py', 'DiskChopper.open_duration', True),
+    ('chopper/disk_chopper.py', 'DiskChopper._apply_angle_repetitions', False),
+    ('chopper/disk_chopper.py', 'DiskChopper._source_phase_factor', False),
+    ('chopper/filtering.py', 'find_plateaus', True),
+    ('chopper/filtering.py', 'collapse_plateaus', True),
+    ('chopper/filtering.py', 'filter_in_phase', True),
+    ('chopper/filtering.py', '_derive', False),
+    ('chopper/filtering.py', '_next_highest', False),
+    ('tof/chopper_cascade.py', 'Frame.propagate_to', True),
+    ('tof/chopper_cascade.py', 'Frame.chop', True),
+    ('tof/chopper_cascade.py', 'Frame.bounds', True),
+    ('tof/chopper_cascade.py', 'Frame.subbounds', True),
+    ('tof/chopper_cascade.py', 'FrameSequence.propagate_to', True),
+    ('tof/chopper_cascade.py', 'FrameSequence.chop', True),
+    ('tof/chopper_cascade.py', 'FrameSequence.from_source_pulse', True),
+    ('tof/chopper_cascade.py', 'Chopper.from_disk_chopper', True),
+    ('io/xye.py', 'save_xye', True),
+    ('io/xye.py', '_deduce_coord', False),
+    ('io/xye.py', '_generate_xye_header', False),
 ]
 
-MODULE_NAMES = {'sc', 'np', 'math', 'const', 'scipp', 'numpy', 'constants', 'itertools', 'dataclasses', 'copy', 'warnings', 'enum'}
+MODULE_NAMES = {'uuid', 'quadratures', 'sc', 'np', 'math', 'const', 'scipp', 'numpy', 'constants', 'itertools', 'dataclasses', 'copy', 'warnings', 'enum'}
 PURE_BUILTINS = {'max', 'min', 'len', 'int', 'float', 'range', 'set', 'frozenset', 'abs', 'isinstance', 'sum', 'str', 'bool',
                  'round', 'any', 'all', 'repr', 'type', 'hasattr', 'ValueError', 'TypeError', 'RuntimeError', 'NotImplementedError',
                  'IndexError', 'KeyError', 'print', 'id', 'issubclass', 'pow', 'divmod'}
@@ -107,7 +183,7 @@ VIEW_METHODS = {'transpose', 'broadcast', 'fold', 'flatten', 'squeeze', 'rename_
                 'drop_coords', 'drop_masks', 'assign_coords', 'assign_masks', 'constituents', 'with_prefix' if False else '__none__'}
 MUTATING_METHODS = {'pop', 'append', 'update', 'clear', 'setdefault', 'extend', 'remove', 'insert', 'sort', 'reverse', 'popitem',
                     'add', 'discard', 'fill', 'resize', 'put', 'setflags'}
-PURE_METHODS = {'mean', 'max', 'min', 'sum', 'nansum', 'nanmean', 'all', 'any', 'issubset', 'issuperset', 'union', 'intersection',
+PURE_METHODS = {'size', 'convert', 'cdf', 'pdf', 'group', 'bin', 'hist', 'replace', 'info', 'debug', 'warning', 'is_regular', 'isoformat', 'total_seconds', 'hex', 'encode', 'decode', 'ljust', 'rjust', 'title', 'capitalize', 'mean', 'max', 'min', 'sum', 'nansum', 'nanmean', 'all', 'any', 'issubset', 'issuperset', 'union', 'intersection',
                 'format', 'startswith', 'endswith', 'join', 'split', 'copy', 'index', 'count', 'is_edges', 'to_dict', 'lower',
                 'upper', 'strip', 'isdisjoint', 'difference', 'item', 'tolist', 'astype_copy', 'norm', 'inverse', 'underlying_size'}
 
@@ -116,21 +192,47 @@ class Unsupported(Exception):
     pass
 
 
+# files whose classes are searched when a method is called on an object that is not `self`
+CLASS_FILES = ['peaks/model.py', 'peaks/_fit_peaks.py', 'absorption/cylinder.py', 'absorption/material.py', 'absorption/types.py',
+               'tof/chopper_cascade.py', 'chopper/disk_chopper.py']
+# external callables assumed pure (they do not write through their arguments, the result is new)
+OPAQUE_PURE = {'chebgauss', 'leggauss', 'uuid4', 'curve_fit', '_scipy_chi2', 'get_logger', 'partial_pure', 'datetime', 'timedelta', 'cast', 'field', 'replace',
+               'TypeVar', 'Path', 'StringIO', 'BytesIO', 'open', 'product', 'chain', 'islice', 'accumulate'}
+# fields that hold callable objects of the package (models); calling them dispatches to every `__call__`
+CALLABLE_ATTRS = {'_left', '_right', 'peak', 'background'}
+# parameters that are callables built with functools.partial by the (translated) caller: (file, function) -> {param: target}
+CALLABLE_PARAMS = {
+    ('absorption/base.py', '_integrate_transmission_fraction'): {
+        'distance_through_sample': ('absorption/base.py', '_single_scatter_distance_through_sample'),
+        'transmission': ('absorption/base.py', '_transmission_fraction'),
+    },
+}
+
+
 class FnInfo:
     def __init__(self, file, qual, public, node, cls):
         self.file, self.qual, self.public, self.node, self.cls = file, qual, public, node, cls
         a = node.args
-        self.params = [p.arg for p in a.posonlyargs + a.args] + [p.arg for p in a.kwonlyargs]
-        if a.vararg or a.kwarg:
-            self.varargs = True
-        else:
-            self.varargs = False
-        self.paths = None        # list of instruction lists
+        self.params = [p.arg for p in a.posonlyargs + a.args]
+        self.npos = len(self.params)
+        self.vararg = a.vararg.arg if a.vararg else None
+        if self.vararg:
+            self.params.append(self.vararg)
+        self.params += [p.arg for p in a.kwonlyargs]
+        self.kwarg = a.kwarg.arg if a.kwarg else None
+        if self.kwarg:
+            self.params.append(self.kwarg)
+        deco = [d.id if isinstance(d, ast.Name) else getattr(d, 'attr', '') for d in node.decorator_list]
+        self.is_static = 'staticmethod' in deco
+        self.paths = None        # list of instruction lists (one joined program per function)
         self.bits = 0
         self.allowed = None      # sorted list of parameter indices that may be written
         self.ret_alias = None    # sorted list of parameter indices the return value may alias
-        self.rets = None         # per path: returned variable or None
+        self.rets = None
+        self.ret_keys = {}       # key -> sorted parameter indices the value under that key of the returned record may alias
+        self.key_vars = {}       # key -> IR variable holding that value
         self.error = None
+        self.assumed = False     # a recursive call used the assumed summary (no writes, fresh result)
 
 
 def written_args(n, prog, c, ret=None):
@@ -155,6 +257,26 @@ def written_args(n, prog, c, ret=None):
     return w
 
 
+def abstract_env(n, prog):
+    """may-alias sets of all variables and the written set under the all-aliasing configuration"""
+    env = {j: {j} for j in range(n)}
+    w = set()
+    for ins in prog:
+        op = ins[0]
+        if op == 'fresh':
+            env[ins[1]] = set()
+        elif op == 'view':
+            s = set()
+            for x in ins[2]:
+                s |= env.get(x, set())
+            env[ins[1]] = s
+        elif op == 'conv':
+            env[ins[1]] = set(env.get(ins[2], set()))
+        elif op == 'write':
+            w |= env.get(ins[1], set())
+    return env, w
+
+
 class Translator:
     def __init__(self, repo):
         self.repo = repo
@@ -162,6 +284,7 @@ class Translator:
         self.trees = {}
         self.infos: dict[tuple[str, str], FnInfo] = {}
         self.in_progress = set()
+        self.method_index = None
 
     def tree(self, file):
         if file not in self.trees:
@@ -169,11 +292,27 @@ class Translator:
                 self.trees[file] = ast.parse(f.read())
         return self.trees[file]
 
+    def methods(self, name):
+        """all (file, Class.method) defining a method `name` in the class files"""
+        if self.method_index is None:
+            self.method_index = {}
+            for file in CLASS_FILES:
+                if not os.path.exists(os.path.join(self.base, file)):
+                    continue
+                for node in self.tree(file).body:
+                    if isinstance(node, ast.ClassDef):
+                        for m in node.body:
+                            if isinstance(m, ast.FunctionDef):
+                                if any(isinstance(s, ast.Expr) and isinstance(s.value, ast.Constant) and s.value.value is Ellipsis for s in m.body):
+                                    continue        # abstract method (body `...`)
+                                self.method_index.setdefault(m.name, []).append((file, f'{node.name}.{m.name}'))
+        return self.method_index.get(name, [])
+
     def find(self, file, qual):
         parts = qual.split('.')
         body = self.tree(file).body
         cls = None
-        for i, part in enumerate(parts):
+        for part in parts:
             found = None
             for node in body:
                 if isinstance(node, ast.FunctionDef | ast.ClassDef) and node.name == part:
@@ -190,7 +329,10 @@ class Translator:
     def info(self, file, qual, public=False):
         key = (file, qual)
         if key in self.infos:
-            return self.infos[key]
+            fi = self.infos[key]
+            if key in self.in_progress:
+                fi.assumed = True          # recursion: the assumed summary is checked when the function is finished
+            return fi
         node, cls = self.find(file, qual)
         if node is None:
             fi = FnInfo(file, qual, public, ast.parse('def f(): pass').body[0], None)
@@ -199,29 +341,47 @@ class Translator:
             self.infos[key] = fi
             return fi
         fi = FnInfo(file, qual, public, node, cls)
+        fi.allowed, fi.ret_alias = [], []          # the summary assumed for recursive calls (grown to a fixpoint)
         self.infos[key] = fi
-        if key in self.in_progress:
-            fi.error = 'recursive'
-            return fi
         self.in_progress.add(key)
         try:
-            if fi.varargs:
-                raise Unsupported('*args/**kwargs parameters')
-            b = Body(self, fi)
-            b.run()
-            fi.paths = [q.ins for q in b.finished]
-            fi.rets = [q.ret for q in b.finished]
-            fi.bits = b.nbits
-            allowed, ret_alias = set(), set()
-            for prog, ret in zip(fi.paths, fi.rets):
-                for c in range(2 ** fi.bits):
-                    w, r = written_args(len(fi.params), prog, c, ret if ret is not None else -1)
+            for _round in range(6):
+                fi.assumed = False
+                created_before = set(self.infos)
+                b = Body(self, fi)
+                b.run()
+                paths = [b.path.ins]
+                rets = [b.ret_var]
+                if b.nbits > 12:
+                    raise Unsupported(f'{b.nbits} aliasing conversions in one function (more than 12 configuration bits)')
+                allowed, ret_alias = set(), set()
+                ret_keys = {k: set() for k in b.key_vars}
+                for c in range(2 ** b.nbits):
+                    w, r = written_args(len(fi.params), paths[0], c, rets[0] if rets[0] is not None else -1)
                     allowed |= w
                     ret_alias |= r
-            fi.allowed = sorted(allowed)
-            fi.ret_alias = sorted(ret_alias)
+                    for k, kv in b.key_vars.items():
+                        ret_keys[k] |= written_args(len(fi.params), paths[0], c, kv)[1]
+                stable = (not fi.assumed) or (allowed <= set(fi.allowed) and ret_alias <= set(fi.ret_alias))
+                fi.paths, fi.rets, fi.bits = paths, rets, b.nbits
+                fi.key_vars = dict(b.key_vars)
+                fi.allowed = sorted(allowed | set(fi.allowed))
+                fi.ret_alias = sorted(ret_alias | set(fi.ret_alias))
+                fi.ret_keys = {k: sorted(v) for k, v in ret_keys.items()}
+                if stable:
+                    break
+                # functions translated meanwhile may have used the too small assumed summary: redo them
+                for k2 in set(self.infos) - created_before:
+                    if k2 not in self.in_progress:
+                        del self.infos[k2]
+            else:
+                raise Unsupported('recursive summary did not stabilise')
         except Unsupported as e:
             fi.error = str(e)
+            fi.paths = []
+            fi.allowed = None
+        except RecursionError:
+            fi.error = 'translator recursion limit'
             fi.paths = []
             fi.allowed = None
         finally:
@@ -234,24 +394,22 @@ class Translator:
         if node is not None:
             return file, name
         for st in self.tree(file).body:
-            if isinstance(st, ast.ImportFrom) and st.module and any(a.asname == name or (a.asname is None and a.name == name) for a in st.names):
+            if isinstance(st, ast.ImportFrom) and st.module and any((a.asname or a.name) == name for a in st.names):
                 orig = next(a.name for a in st.names if (a.asname or a.name) == name)
                 mod = st.module.replace('.', '/')
-                here = os.path.dirname(file)
-                up = st.level
-                d = here
-                for _ in range(max(up - 1, 0)):
+                if st.level == 0:
+                    if not st.module.startswith('scippneutron'):
+                        continue
+                    mod = mod[len('scippneutron'):].lstrip('/')
+                d = os.path.dirname(file)
+                for _ in range(max(st.level - 1, 0)):
                     d = os.path.dirname(d)
-                cand = os.path.normpath(os.path.join(d if up else '', mod + '.py'))
-                if os.path.exists(os.path.join(self.base, cand)):
-                    n2, _ = self.find(cand, orig)
-                    if n2 is not None:
-                        return cand, orig
-                cand2 = os.path.normpath(os.path.join(d if up else '', mod, '__init__.py'))
-                if os.path.exists(os.path.join(self.base, cand2)):
-                    n2, _ = self.find(cand2, orig)
-                    if n2 is not None:
-                        return cand2, orig
+                for cand in (os.path.normpath(os.path.join(d if st.level else '', (mod or '.') + '.py')),
+                             os.path.normpath(os.path.join(d if st.level else '', mod, '__init__.py'))):
+                    if os.path.exists(os.path.join(self.base, cand)):
+                        n2, _ = self.find(cand, orig)
+                        if n2 is not None:
+                            return cand, orig
         return None
 
 
@@ -259,53 +417,91 @@ class Path:
     def __init__(self, nparams):
         self.ins = []
         self.names = {}
-        self.fields = {}     # var -> {'data': var, '*': var}
+        self.fields = {}     # var -> {'data': var, '*': var}   (local containers)
+        self.closures = {}   # var -> ('partial', target, bound vars) | ('def', node, captured names)
         self.next = nparams
-        self.done = False
-        self.skip = False
-        self.ret = None
-
-    def clone(self):
-        p = Path(0)
-        p.ins = list(self.ins)
-        p.names = dict(self.names)
-        p.fields = {k: dict(v) for k, v in self.fields.items()}
-        p.next = self.next
-        p.done = self.done
-        p.skip = self.skip
-        p.ret = self.ret
-        return p
+        self.dead = False    # after return / raise / continue / break on this branch
 
 
 class Body:
-    MAX_PATHS = 64
+    """Translation of one function body into ONE straight-line program.
+
+    Control flow is joined, not forked: both branches of an `if` (all handlers of a `try`, all cases of a
+    `match`) are translated one after the other from the same bindings, and a name bound differently on the
+    branches becomes a `view` of both values. Every IR variable is assigned once, so the may-alias / may-write
+    analysis of the joined program is the union over the branches. Loops are translated by repeating the body
+    until the abstract state (may-alias sets of all names, written set, under the all-aliasing configuration)
+    no longer changes; the repeated body is the invariant."""
+
+    MAX_UNROLL = 8
 
     def __init__(self, tr: Translator, fi: FnInfo):
         self.tr, self.fi = tr, fi
         self.nbits = 0
         self.site_bits = {}
-        self.finished = []
+        self.path = Path(len(fi.params))
+        self.returned = []
+        self.returned_keys = {}      # key -> vars (only while every returned value is a record with named fields)
+        self.records_only = True
+        self.key_vars = {}
+        self.ret_var = None
 
     # ---- driving ------------------------------------------------------------------------------------
     def run(self):
-        p = Path(len(self.fi.params))
+        p = self.path
         for i, name in enumerate(self.fi.params):
             p.names[name] = i
-        paths = self.block(self.fi.node.body, [p])
-        self.finished = list(paths)
+        self.block(self.fi.node.body, p)
+        if self.returned:
+            self.ret_var = self.view(p, self.returned)
+            if self.records_only:
+                for k, vs in self.returned_keys.items():
+                    self.key_vars[k] = self.view(p, vs)
 
-    def block(self, stmts, paths):
+    def block(self, stmts, p):
         for st in stmts:
-            nxt = []
-            for p in paths:
-                if p.done or p.skip:
-                    nxt.append(p)
-                    continue
-                nxt += self.stmt(st, p)
-            paths = nxt
-            if len(paths) > self.MAX_PATHS:
-                raise Unsupported('too many paths')
-        return paths
+            if p.dead:
+                break
+            self.stmt(st, p)
+
+    def branch(self, p, bodies):
+        """translate alternative blocks from the same bindings and join the bindings afterwards"""
+        start_names, start_fields, start_cl = dict(p.names), {k: dict(v) for k, v in p.fields.items()}, dict(p.closures)
+        results = []
+        for body in bodies:
+            p.names, p.dead = dict(start_names), False
+            p.fields = {k: dict(v) for k, v in start_fields.items()}
+            p.closures = dict(start_cl)
+            if callable(body):
+                body()
+            else:
+                self.block(body, p)
+            results.append((dict(p.names), {k: dict(v) for k, v in p.fields.items()}, dict(p.closures), p.dead))
+        live = [r for r in results if not r[3]]
+        if not live:
+            p.dead = True
+            p.names = dict(start_names)
+            return
+        p.dead = False
+        merged = {}
+        for name in {n for r in live for n in r[0]}:
+            vals = [r[0][name] for r in live if name in r[0]]
+            if len(set(vals)) == 1 and len(vals) == len(live):
+                merged[name] = vals[0]
+            else:
+                merged[name] = None, list(dict.fromkeys(vals))
+        p.fields = {}
+        p.closures = {}
+        for r in live:
+            for k, v in r[1].items():
+                p.fields.setdefault(k, v)
+            p.closures.update(r[2])
+        p.names = {}
+        for name, v in merged.items():
+            if isinstance(v, tuple):
+                p.names[name] = self.view(p, [y for x in v[1] for y in self.expand(p, x)])
+            else:
+                p.names[name] = v
 
     # ---- helpers ------------------------------------------------------------------------------------
     def new(self, p):
@@ -319,23 +515,21 @@ class Body:
         return v
 
     def view(self, p, srcs):
-        srcs = [s for s in dict.fromkeys(srcs)]
+        srcs = list(dict.fromkeys(srcs))
         v = self.new(p)
-        if srcs:
-            p.ins.append(('view', v, srcs))
-        else:
-            p.ins.append(('fresh', v))
+        p.ins.append(('view', v, srcs) if srcs else ('fresh', v))
         return v
 
-    def expand(self, p, v):
+    def expand(self, p, v, depth=0):
         """all buffers reachable from variable v (its fields if it is a local container)"""
-        if v in p.fields:
-            return [v] + [x for f in p.fields[v].values() for x in self.expand(p, f)]
+        if v in p.fields and depth < 6:
+            return [v] + [x for f in p.fields[v].values() for x in self.expand(p, f, depth + 1)]
         return [v]
 
     def write(self, p, v):
         if v in p.fields:
-            self.write(p, p.fields[v].get('data', p.fields[v]['*']))
+            f = p.fields[v]
+            self.write(p, f['data'] if 'data' in f else f['*']) if ('data' in f or '*' in f) else p.ins.append(('write', v))
         else:
             p.ins.append(('write', v))
 
@@ -346,36 +540,71 @@ class Body:
             self.nbits += 1
         return self.site_bits[key]
 
+    def state_signature(self, p):
+        env, w = abstract_env(len(self.fi.params), p.ins)
+        sig = {}
+        for name, v in p.names.items():
+            s = set()
+            for y in self.expand(p, v):
+                s |= env.get(y, set())
+            sig[name] = frozenset(s)
+        return sig, frozenset(w)
+
+    def loop(self, p, bind_target, body, orelse):
+        prev = None
+        for _ in range(self.MAX_UNROLL):
+            def once():
+                bind_target()
+                self.block(body, p)
+                p.dead = False          # continue / break end the iteration, not the function
+            # the loop may run zero times: join "skip" with "one more iteration"
+            self.branch(p, [[], once])
+            sig = self.state_signature(p)
+            if sig == prev:
+                break
+            prev = sig
+        else:
+            raise Unsupported('loop did not reach a stable abstract state')
+        if orelse:
+            self.block(orelse, p)
+
     # ---- statements ---------------------------------------------------------------------------------
     def stmt(self, st, p):
         if isinstance(st, ast.Expr):
-            if isinstance(st.value, ast.Constant):
-                return [p]
-            self.expr(st.value, p)
-            return [p]
+            if not isinstance(st.value, ast.Constant):
+                self.expr(st.value, p)
+            return
         if isinstance(st, ast.Pass | ast.Import | ast.ImportFrom | ast.Assert | ast.Global | ast.Nonlocal):
-            return [p]
+            return
         if isinstance(st, ast.Return):
             if st.value is not None:
                 v = self.expr(st.value, p)
-                p.ret = self.view(p, self.expand(p, v))
-            p.done = True
-            return [p]
+                self.returned += self.expand(p, v)
+                named = {k: x for k, x in p.fields.get(v, {}).items() if k not in ('*',)}
+                if v in p.fields and '*' not in p.fields[v] and named:
+                    for k, x in named.items():
+                        self.returned_keys.setdefault(k, []).extend(self.expand(p, x))
+                else:
+                    self.records_only = False
+            p.dead = True
+            return
         if isinstance(st, ast.Raise):
-            p.done = True
-            return [p]
+            if st.exc is not None:
+                self.expr(st.exc, p)
+            p.dead = True
+            return
         if isinstance(st, ast.Continue | ast.Break):
-            p.skip = True
-            return [p]
+            p.dead = True
+            return
         if isinstance(st, ast.Assign):
             v = self.expr(st.value, p)
             for t in st.targets:
                 self.assign(t, v, p)
-            return [p]
+            return
         if isinstance(st, ast.AnnAssign):
             if st.value is not None:
                 self.assign(st.target, self.expr(st.value, p), p)
-            return [p]
+            return
         if isinstance(st, ast.AugAssign):
             self.expr(st.value, p)
             t = st.target
@@ -385,43 +614,62 @@ class Body:
                 self.write(p, p.names[t.id])
             else:
                 self.write(p, self.expr(t, p))
-            return [p]
+            return
         if isinstance(st, ast.Delete):
             for t in st.targets:
                 if isinstance(t, ast.Name):
                     p.names.pop(t.id, None)
-                else:
-                    self.write(p, self.expr(t.value if isinstance(t, ast.Subscript | ast.Attribute) else t, p))
-            return [p]
+                elif isinstance(t, ast.Subscript | ast.Attribute):
+                    self.write(p, self.expr(t.value, p))
+            return
         if isinstance(st, ast.If):
             self.expr(st.test, p)
-            a = p
-            b = p.clone()
-            ra = self.block(st.body, [a])
-            rb = self.block(st.orelse, [b]) if st.orelse else [b]
-            return ra + rb
+            self.branch(p, [st.body, st.orelse])
+            return
         if isinstance(st, ast.For):
             it = self.expr(st.iter, p)
-            paths = [p]
-            for _ in range(2):
-                for q in paths:
-                    if not q.done:
-                        self.assign(st.target, self.view(q, self.expand(q, it)), q)
-                paths = self.block(st.body, paths)
-                for q in paths:
-                    q.skip = False
-                if len(paths) > self.MAX_PATHS:
-                    raise Unsupported('too many paths')
-            if st.orelse:
-                paths = self.block(st.orelse, paths)
-            return paths
+            self.loop(p, lambda: self.assign(st.target, self.view(p, self.expand(p, it)), p), st.body, st.orelse)
+            return
+        if isinstance(st, ast.While):
+            self.loop(p, lambda: self.expr(st.test, p), st.body, st.orelse)
+            return
+        if isinstance(st, ast.Try):
+            def handler(h):
+                def run():
+                    if h.name:
+                        p.names[h.name] = self.fresh(p)
+                    self.block(h.body, p)
+                return run
+            # the body may be abandoned at any point: join "body (+else)" with "body, then a handler"
+            self.block(st.body, p)
+            dead_after_body = p.dead
+            p.dead = False
+            alts = [(lambda: (setattr(p, 'dead', dead_after_body), self.block(st.orelse, p)))]
+            alts += [handler(h) for h in st.handlers]
+            self.branch(p, alts)
+            if st.finalbody:
+                was = p.dead
+                p.dead = False
+                self.block(st.finalbody, p)
+                p.dead = p.dead or was
+            return
+        if isinstance(st, ast.With):
+            for item in st.items:
+                v = self.expr(item.context_expr, p)
+                if item.optional_vars is not None:
+                    self.assign(item.optional_vars, self.view(p, self.expand(p, v)), p)
+            self.block(st.body, p)
+            return
         if isinstance(st, ast.Match):
             self.expr(st.subject, p)
-            out = []
-            for case in st.cases:
-                q = p.clone()
-                out += self.block(case.body, [q])
-            return out + [p]
+            self.branch(p, [case.body for case in st.cases] + [[]])
+            return
+        if isinstance(st, ast.FunctionDef):
+            free = {n.id for n in ast.walk(st) if isinstance(n, ast.Name)}
+            v = self.view(p, [y for name in sorted(free) if name in p.names for y in self.expand(p, p.names[name])])
+            p.closures[v] = ('def', st)
+            p.names[st.name] = v
+            return
         raise Unsupported(f'statement {type(st).__name__} (line {st.lineno})')
 
     def assign(self, t, v, p):
@@ -433,10 +681,12 @@ class Body:
         elif isinstance(t, ast.Subscript):
             self.expr(t.slice, p)
             base = self.expr(t.value, p)
-            if base in p.fields:
-                p.ins.append(('write', base))      # item assignment on a local container: the container itself
-            else:
-                p.ins.append(('write', base))
+            p.ins.append(('write', base))
+            if base in p.fields:            # the local container now also holds the assigned value
+                if isinstance(t.slice, ast.Constant) and isinstance(t.slice.value, str) and '*' not in p.fields[base] and 'data' not in p.fields[base]:
+                    p.fields[base][t.slice.value] = v
+                else:
+                    p.fields[base]['*'] = self.view(p, self.expand(p, v) + ([p.fields[base]['*']] if '*' in p.fields[base] else []))
         elif isinstance(t, ast.Attribute):
             base = self.expr(t.value, p)
             if base in p.fields:
@@ -453,12 +703,20 @@ class Body:
             if e.id in p.names:
                 return p.names[e.id]
             return self.fresh(p)       # module-level object / builtin constant
-        if isinstance(e, ast.Constant | ast.JoinedStr | ast.Lambda):
-            if isinstance(e, ast.JoinedStr):
-                for val in e.values:
-                    if isinstance(val, ast.FormattedValue):
-                        self.expr(val.value, p)
+        if isinstance(e, ast.Constant):
             return self.fresh(p)
+        if isinstance(e, ast.JoinedStr):
+            for val in e.values:
+                if isinstance(val, ast.FormattedValue):
+                    self.expr(val.value, p)
+            return self.fresh(p)
+        if isinstance(e, ast.Lambda):
+            free = {n.id for n in ast.walk(e.body) if isinstance(n, ast.Name)}
+            return self.view(p, [y for name in sorted(free) if name in p.names for y in self.expand(p, p.names[name])])
+        if isinstance(e, ast.NamedExpr):
+            v = self.expr(e.value, p)
+            self.assign(e.target, v, p)
+            return v
         if isinstance(e, ast.BinOp):
             self.expr(e.left, p)
             self.expr(e.right, p)
@@ -480,14 +738,32 @@ class Body:
             return self.view(p, self.expand(p, a) + self.expand(p, b))
         if isinstance(e, ast.Tuple | ast.List | ast.Set):
             vs = [self.expr(x.value if isinstance(x, ast.Starred) else x, p) for x in e.elts]
-            return self.view(p, [y for v in vs for y in self.expand(p, v)])
+            v = self.fresh(p)
+            p.fields[v] = {'*': self.view(p, [y for x in vs for y in self.expand(p, x)])}
+            return v
         if isinstance(e, ast.Dict):
             vs = []
+            keyed = {}
             for k, val in zip(e.keys, e.values):
                 if k is not None:
                     self.expr(k, p)
-                vs.append(self.expr(val, p))
-            return self.view(p, [y for v in vs for y in self.expand(p, v)])
+                x = self.expr(val, p)
+                vs.append(x)
+                if isinstance(k, ast.Constant) and isinstance(k.value, str) and keyed is not None:
+                    keyed[k.value] = x
+                elif k is not None:
+                    keyed = None
+                else:                       # `**other`: a record merged in
+                    if keyed is not None and x in p.fields and '*' not in p.fields[x]:
+                        keyed.update(p.fields[x])
+                    else:
+                        keyed = None
+            v = self.fresh(p)
+            if keyed:
+                p.fields[v] = dict(keyed)
+            else:
+                p.fields[v] = {'*': self.view(p, [y for x in vs for y in self.expand(p, x)])}
+            return v
         if isinstance(e, ast.Starred):
             return self.expr(e.value, p)
         if isinstance(e, ast.Slice):
@@ -502,15 +778,27 @@ class Body:
             if base in p.fields:
                 key = 'data' if e.attr in ('data', 'values', 'variances') else e.attr
                 f = p.fields[base]
-                return f[key] if key in f else f['*']
+                if key in f:
+                    return f[key]
+                if '*' in f:
+                    return f['*']
+                return self.view(p, self.expand(p, base))
             if e.attr in META_ATTRS:
                 return self.fresh(p)
-            return self.view(p, [base])
+            return self.view(p, [base])         # attribute read (field or property): a view of the object
         if isinstance(e, ast.Subscript):
             self.expr(e.slice, p)
             base = self.expr(e.value, p)
             if base in p.fields:
                 f = p.fields[base]
+                if isinstance(e.slice, ast.Constant) and isinstance(e.slice.value, str):
+                    if e.slice.value in f:
+                        return f[e.slice.value]
+                    return self.view(p, self.expand(p, f['*']) if '*' in f else self.expand(p, base))
+                if set(f) == {'*'}:
+                    return self.view(p, self.expand(p, f['*']))       # element of a local list / dict
+                if 'data' not in f:                                    # a record indexed with a computed key
+                    return self.view(p, self.expand(p, base))
                 v = self.fresh(p)
                 p.fields[v] = {k: self.view(p, self.expand(p, x)) for k, x in f.items()}
                 return v
@@ -527,10 +815,19 @@ class Body:
                 v = self.expr(e.value, p)
             else:
                 v = self.expr(e.elt, p)
+            # evaluate the element a second time (bindings made by the first evaluation are visible)
+            if isinstance(e, ast.DictComp):
+                v2 = self.expr(e.value, p)
+            else:
+                v2 = self.expr(e.elt, p)
             p.names = saved
-            return self.view(p, self.expand(p, v))
+            out = self.fresh(p)
+            p.fields[out] = {'*': self.view(p, self.expand(p, v) + self.expand(p, v2))}
+            return out
         if isinstance(e, ast.Call):
             return self.call(e, p)
+        if isinstance(e, ast.Await | ast.Yield | ast.YieldFrom):
+            raise Unsupported(f'generator / coroutine (line {e.lineno})')
         raise Unsupported(f'expression {type(e).__name__} (line {e.lineno})')
 
     def kw_const(self, e, name, default):
@@ -543,20 +840,19 @@ class Body:
 
     def call(self, e, p):
         f = e.func
-        # evaluate arguments (left to right), remember `out=`
         argvars = []
         out_var = None
         for a in e.args:
-            argvars.append((None, self.expr(a, p)))
+            argvars.append(('*' if isinstance(a, ast.Starred) else None, self.expr(a, p)))
         for k in e.keywords:
             v = self.expr(k.value, p)
             if k.arg == 'out':
                 out_var = v
             else:
-                argvars.append((k.arg, v))
+                argvars.append((k.arg if k.arg is not None else '**', v))
         allargs = [y for _, v in argvars for y in self.expand(p, v)]
 
-        def finish_out(res_srcs=None):
+        def finish_out():
             if out_var is not None:
                 self.write(p, out_var)
                 return self.view(p, [out_var])
@@ -574,16 +870,12 @@ class Body:
                 if copy == 'dynamic':
                     raise Unsupported('to_unit with dynamic copy flag')
                 return self.fresh(p)
-            if name in ('values', 'variances', 'stddevs'):
-                return self.view(p, allargs) if name == 'values' else self.fresh(p)
+            if name == 'values':
+                return self.view(p, allargs)
             if name in ('DataArray', 'Dataset', 'DataGroup'):
                 return self.view(p, allargs)
-            if name == 'deepcopy':
-                return self.fresh(p)
             r = finish_out()
-            if r is not None:
-                return r
-            return self.fresh(p)
+            return r if r is not None else self.fresh(p)
         # ---- methods
         if isinstance(f, ast.Attribute):
             base = self.expr(f.value, p)
@@ -592,7 +884,7 @@ class Body:
                 copy = self.kw_const(e, 'copy', True)
                 if copy is False:
                     v = self.new(p)
-                    src = p.fields[base].get('data', p.fields[base]['*']) if base in p.fields else base
+                    src = p.fields[base].get('data', p.fields[base].get('*', base)) if base in p.fields else base
                     p.ins.append(('conv', v, src, self.bit(e)))
                     return v
                 if copy == 'dynamic':
@@ -601,33 +893,61 @@ class Body:
             if name == 'copy':
                 deep = self.kw_const(e, 'deep', True)
                 if deep is False:
+                    # a shallow copy: new object with its own coords / masks dicts, whose entries are the original buffers
                     v = self.fresh(p)
                     src = self.expand(p, base)
-                    p.fields[v] = {'data': self.view(p, src), '*': self.view(p, src)}
+                    coords, masks = self.fresh(p), self.fresh(p)
+                    p.fields[coords] = {'*': self.view(p, src)}
+                    p.fields[masks] = {'*': self.view(p, src)}
+                    p.fields[v] = {'data': self.view(p, src), 'coords': coords, 'masks': masks, '*': self.view(p, src)}
                     return v
                 if deep == 'dynamic':
                     raise Unsupported('copy with dynamic deep flag')
                 return self.fresh(p)
+            if name == 'pop' and base in p.fields and e.args and isinstance(e.args[0], ast.Constant) and e.args[0].value in p.fields[base]:
+                p.ins.append(('write', base))
+                return p.fields[base].pop(e.args[0].value)
             if name in MUTATING_METHODS:
                 p.ins.append(('write', base))
+                if base in p.fields and allargs:
+                    f_ = p.fields[base]
+                    f_['*'] = self.view(p, allargs + ([f_['*']] if '*' in f_ else []))
                 return self.view(p, self.expand(p, base) + allargs)
+            # a method of the same class
+            if isinstance(f.value, ast.Name) and f.value.id == 'self' and self.fi.cls and not self.fi.is_static:
+                node, _ = self.tr.find(self.fi.file, f'{self.fi.cls}.{name}')
+                if node is not None:
+                    callee = self.tr.info(self.fi.file, f'{self.fi.cls}.{name}')
+                    if callee.error is not None:
+                        raise Unsupported(f'calls self.{name}, which is untranslated ({callee.error})')
+                    return self.apply_callees([callee], [(None, base)] + argvars, p)
             if name in VIEW_METHODS:
-                return self.view(p, self.expand(p, base) + allargs)
+                keeps_args = name in ('get', 'assign_coords', 'assign_masks', 'setdefault')
+                return self.view(p, self.expand(p, base) + (allargs if keeps_args else []))
             if name in PURE_METHODS:
                 r = finish_out()
                 return r if r is not None else self.fresh(p)
-            # a method of the same class that is itself a target
-            if isinstance(f.value, ast.Name) and f.value.id == 'self' and self.fi.cls:
-                callee = self.tr.info(self.fi.file, f'{self.fi.cls}.{name}')
-                if callee.error is None and callee.node is not None and callee.allowed is not None:
-                    return self.apply_callee(callee, [(None, base)] + argvars, p)
+            # a method of some class of the package, called on an object (argument, field, element …)
+            cands = self.tr.methods(name)
+            if cands:
+                callees = []
+                for file, qual in cands:
+                    c = self.tr.info(file, qual)
+                    if c.error is not None:
+                        raise Unsupported(f'calls .{name}, candidate {qual} is untranslated ({c.error})')
+                    callees.append(c)
+                return self.apply_callees(callees, [(None, base)] + argvars, p)
+            if name in CALLABLE_ATTRS:          # a field that holds an object with __call__ (a model)
+                return self.call_object(self.view(p, [base]), name, argvars, e, p)
             raise Unsupported(f'unknown method .{name} (line {e.lineno})')
         # ---- plain names
         if isinstance(f, ast.Name):
             name = f.id
+            if name == 'cls' and self.fi.params[:1] == ['cls']:
+                return self.record(p, argvars)
             if name in p.names:
-                raise Unsupported(f'call of a local object {name} (line {e.lineno})')
-            if name in PURE_BUILTINS:
+                return self.call_object(p.names[name], name, argvars, e, p)
+            if name in PURE_BUILTINS or name in OPAQUE_PURE:
                 return self.fresh(p)
             if name in VIEW_BUILTINS:
                 return self.view(p, allargs)
@@ -638,16 +958,97 @@ class Body:
                 return v
             if name == 'deepcopy':
                 return self.fresh(p)
+            if name == 'partial' and argvars:
+                target = e.args[0]
+                v = self.view(p, [y for _, a in argvars[1:] for y in self.expand(p, a)])
+                if isinstance(target, ast.Name):
+                    t = self.tr.resolve_callee(self.fi.file, target.id)
+                    if t is not None:
+                        p.closures[v] = ('partial', t, [a for _, a in argvars[1:]])
+                return v
+            if name == 'super':
+                return self.view(p, [p.names['self']] if 'self' in p.names else [])
             target = self.tr.resolve_callee(self.fi.file, name)
             if target is not None:
                 callee = self.tr.info(*target)
                 if callee.error is not None:
                     raise Unsupported(f'calls {name}, which is untranslated ({callee.error})')
-                return self.apply_callee(callee, argvars, p)
-            if name.lstrip('_')[:1].isupper():
-                return self.view(p, allargs)        # constructor of a record / exception: holds its arguments
+                return self.apply_callees([callee], argvars, p)
+            if name.lstrip('_')[:1].isupper() or name == 'cls':
+                return self.record(p, argvars)      # constructor of a record / exception: holds its arguments
             raise Unsupported(f'unknown function {name} (line {e.lineno})')
-        raise Unsupported(f'call of {type(f).__name__} (line {e.lineno})')
+        # ---- call of the value of an expression: an object with __call__
+        obj = self.expr(f, p)
+        return self.call_object(obj, '<expression>', argvars, e, p)
+
+    def call_object(self, obj, name, argvars, e, p):
+        """`obj(args)`: a closure made in this function, a whitelisted callable parameter, or an object of the package
+        with `__call__`"""
+        cl = p.closures.get(obj)
+        if cl is not None and cl[0] == 'partial':
+            callee = self.tr.info(*cl[1])
+            if callee.error is not None:
+                raise Unsupported(f'calls partial of {cl[1][1]}, which is untranslated ({callee.error})')
+            return self.apply_callees([callee], [(None, a) for a in cl[2]] + argvars, p)
+        if cl is not None and cl[0] == 'def':
+            node = cl[1]
+            params = [a.arg for a in node.args.posonlyargs + node.args.args]
+            saved = dict(p.names)
+            pos = 0
+            rest = []
+            for nm, v in argvars:
+                if nm is None and pos < len(params):
+                    p.names[params[pos]] = v
+                    pos += 1
+                elif nm in params:
+                    p.names[nm] = v
+                else:
+                    rest.append(v)
+            for extra in ([node.args.vararg.arg] if node.args.vararg else []) + ([node.args.kwarg.arg] if node.args.kwarg else []):
+                p.names[extra] = self.view(p, [y for v in rest for y in self.expand(p, v)])
+            before = len(self.returned)
+            was_dead = p.dead
+            self.block(node.body, p)
+            p.dead = was_dead
+            res = self.returned[before:]
+            del self.returned[before:]
+            p.names = saved
+            return self.view(p, res)
+        wl = CALLABLE_PARAMS.get((self.fi.file, self.fi.qual), {})
+        if name in wl and name in self.fi.params:
+            callee = self.tr.info(*wl[name])
+            if callee.error is not None:
+                raise Unsupported(f'callable parameter {name}: target is untranslated ({callee.error})')
+            nbound = len(callee.params) - len(argvars)
+            if nbound < 0:
+                raise Unsupported(f'callable parameter {name}: more arguments than parameters of the target')
+            # the first `nbound` parameters of the target are bound inside the callable object itself
+            return self.apply_callees([callee], [(None, obj)] * nbound + argvars, p)
+        cands = self.tr.methods('__call__')
+        if cands:
+            callees = []
+            for file, qual in cands:
+                c = self.tr.info(file, qual)
+                if c.error is not None:
+                    raise Unsupported(f'calls an object, candidate {qual} is untranslated ({c.error})')
+                callees.append(c)
+            return self.apply_callees(callees, [(None, obj)] + argvars, p)
+        raise Unsupported(f'call of a local object {name} (line {e.lineno})')
+
+    def record(self, p, argvars):
+        """a new object that stores references to its constructor arguments (keyword arguments as named fields)"""
+        v = self.fresh(p)
+        f = {}
+        rest = []
+        for name, a in argvars:
+            if name not in (None, '*', '**'):
+                f[name] = a
+            else:
+                rest.append(a)
+        if rest or not f:
+            f['*'] = self.view(p, [y for a in rest for y in self.expand(p, a)])
+        p.fields[v] = f
+        return v
 
     def is_module_expr(self, v, p):
         if isinstance(v, ast.Name):
@@ -656,21 +1057,51 @@ class Body:
             return self.is_module_expr(v.value, p)
         return False
 
-    def apply_callee(self, callee: FnInfo, argvars, p):
-        params = callee.params
-        bound = {}
-        pos = 0
-        for name, v in argvars:
-            if name is None:
-                if pos < len(params):
-                    bound[pos] = v
-                pos += 1
-            elif name in params:
-                bound[params.index(name)] = v
-        for j in callee.allowed or []:
-            if j in bound:
-                self.write(p, bound[j])
-        return self.view(p, [y for j, v in bound.items() if j in (callee.ret_alias or []) for y in self.expand(p, v)])
+    def apply_callees(self, callees, argvars, p):
+        """the effect of a call that may go to any of `callees` (dynamic dispatch): union of their summaries"""
+        written, aliased = [], []
+        last_bound = {}
+        for callee in callees:
+            params = callee.params
+            bound = {}
+            pos = 0
+            extra = []
+            for name, v in argvars:
+                if name is None:
+                    if pos < callee.npos:
+                        bound.setdefault(pos, []).append(v)
+                    elif callee.vararg:
+                        bound.setdefault(params.index(callee.vararg), []).append(v)
+                    else:
+                        extra.append(v)
+                    pos += 1
+                elif name in ('*', '**'):
+                    extra.append(v)
+                elif name in params:
+                    bound.setdefault(params.index(name), []).append(v)
+                elif callee.kwarg:
+                    bound.setdefault(params.index(callee.kwarg), []).append(v)
+                else:
+                    extra.append(v)
+            for v in extra:                     # unpacked arguments may land in any parameter
+                for j in range(len(params)):
+                    bound.setdefault(j, []).append(v)
+            for j in callee.allowed or []:
+                written += bound.get(j, [])
+            for j in callee.ret_alias or []:
+                aliased += bound.get(j, [])
+            last_bound = bound
+        for v in dict.fromkeys(written):
+            self.write(p, v)
+        flat = self.view(p, [y for v in dict.fromkeys(aliased) for y in self.expand(p, v)])
+        if len(callees) == 1 and callees[0].ret_keys:
+            callee = callees[0]
+            out = self.fresh(p)
+            p.fields[out] = {}
+            for k, js in callee.ret_keys.items():
+                p.fields[out][k] = self.view(p, [y for j in js for v in last_bound.get(j, []) for y in self.expand(p, v)])
+            return out
+        return flat
 
 
 # ---- rendering ----------------------------------------------------------------------------------------
@@ -724,7 +1155,9 @@ def render(repo):
             out.append(f'  {{ name := [{", ".join(str(b) for b in qn.encode())}], nargs := {len(fi.params)}, bits := {fi.bits},')
             out.append(f'    allowed := [{", ".join(str(j) for j in fi.allowed)}], isPublic := {"true" if fi.public else "false"},')
             ret = fi.rets[k]
-            out.append(f'    ret := {"none" if ret is None else "some " + str(ret)}, retAllowed := [{", ".join(str(j) for j in fi.ret_alias)}],')
+            rets = [] if ret is None else [(ret, fi.ret_alias)]
+            rets += [(fi.key_vars[key], fi.ret_keys[key]) for key in sorted(fi.key_vars)]
+            out.append('    rets := [' + ', '.join(f'({v}, [{", ".join(str(j) for j in js)}])' for v, js in rets) + '],')
             body = ',\n      '.join(lean_ins(i) for i in prog)
             out.append(f'    ir := [\n      {body}] }}')
             out.append('')
